@@ -24,6 +24,10 @@ ck.regen()
 mods = ck.props_modules()
 if mods:
     ck.lean(mods)
+    ck.require_theorems([
+        'LbzVerif.Props.C13.Compress.live_le',
+        'LbzVerif.Props.C13.Compress.memBound_linear',
+    ])
 exe = ck.build_lbzip2(asan=False)
 shim = ck.cc('mallocshim.so', ['harness/mallocshim.c'], asan=False,
              flags=['-shared', '-fPIC'], libs=['-ldl', '-lpthread'])
